@@ -25,6 +25,7 @@ struct Scenario {
     std::function<void()> body;
     int bound_quick = 1, bound_thorough = 2;
     int (*quiescent_ok)() = nullptr;  // may a "no runnable thread" state be legal?
+    int spurious_kmax = 3;            // spurious pass: inject at the k-th cv wait for k = 0..spurious_kmax-1
     bool spurious_pass = false;       // additionally explore with one injected spurious wake-up
     int horizon = 50000;
     bool delay = false;  // delay-bounded instead of preemption-bounded: option j at any scheduling point costs j
@@ -450,15 +451,13 @@ inline int run(int argc, char** argv, const std::vector<Scenario>& scs) {
         if (A.shard == 0 && !sc.whole) vh::note(vh::fmt("%s: bound completed=%d%s", sc.name.c_str(), completed, any_fail ? " (failures)" : ""));
         if (sc.spurious_pass && !any_fail && !vh::past_deadline()) {
             // one injected spurious wake-up at the k-th cv wait, for every k that occurs on the default schedule
-            for (int k = 0; k < 64; ++k) {
+            for (int k = 0; k < sc.spurious_kmax; ++k) {
                 Explorer ex(sc, std::min(B, 1), k);
                 ex.explore();
                 vh::stat_add("executions", ex.owned);
                 vh::stat_add("spurious_executions", ex.owned);
                 vh::stat_add("transitions", ex.steps);
                 if (ex.stopped) break;
-                // stop when k exceeds the number of waits ever performed (no execution consumed the injection)
-                if (k >= 8) break;
             }
         }
     }
